@@ -296,6 +296,7 @@ type c09case struct {
 }
 
 func c09(r *engine.Run) {
+	r.RaceWorkload = "transactions" // supplement: free-running race-detector pass over the same API (can only add findings)
 	if pf := os.Getenv("VERIF_PROFILE"); pf != "" {
 		f, _ := os.Create(pf)
 		pprof.StartCPUProfile(f)
